@@ -123,7 +123,14 @@ def local_extent(s):
     return out
 
 
-def shape_diff(a, b, tol, vscale=1.0):
+def written_delta(a, vinv):
+    """how far the matrix the writer prints for this shape (t * inverse viewport transform, six decimals) can be from the
+    one it means: the largest distance of an entry to its six-decimal rounding (0 for the identity, at most 5e-7)"""
+    W = dg.mmul(tuple(a["m"]), tuple(vinv)) if vinv else tuple(a["m"])
+    return max(abs(w - round(w, 6)) for w in W)
+
+
+def shape_diff(a, b, tol, vscale=1.0, vinv=None):
     if a["kind"] != b["kind"] and {a["kind"], b["kind"]} != {"circle", "ellipse"}:
         return "kind %s vs %s" % (a["kind"], b["kind"])
     if a["id"] != b["id"]:
@@ -132,7 +139,7 @@ def shape_diff(a, b, tol, vscale=1.0):
         return "geometry not evaluable"
     # each written matrix entry is off by at most 5e-7: a point moves by at most 5e-7 (|x|+|y|+1) in the written user space,
     # times the scale of the viewport transform applied on reading (factor 2 for the source's own rounding)
-    eps = 2 * 5e-7 * max(local_extent(a), local_extent(b)) * max(1.0, vscale)
+    eps = 2 * (written_delta(a, vinv) + 1e-12) * max(local_extent(a), local_extent(b)) * max(1.0, vscale)
     big = max([1.0] + [abs(v) for sg in a["abs"] for f in ("start", "end") if sg.get(f) for v in sg[f] if v is not None])
     d = dg.pl.obs_segs_diff(a["abs"], b["abs"], max(tol, eps), arc_tol=max(4 * tol, 4 * eps / big))
     if d:
@@ -171,11 +178,11 @@ def dg_fmt(v):
     return "#%08x" % v if isinstance(v, int) else v
 
 
-def shapes_diff(A, B, tol, where=None, vscale=1.0):
+def shapes_diff(A, B, tol, where=None, vscale=1.0, vinv=None):
     if len(A) != len(B):
         return "%d shapes vs %d (%s vs %s)" % (len(A), len(B), [s["kind"] for s in A][:10], [s["kind"] for s in B][:10])
     for i, (a, b) in enumerate(zip(A, B)):
-        d = shape_diff(a, b, tol, vscale)
+        d = shape_diff(a, b, tol, vscale, vinv)
         if d:
             if where is not None:
                 where.append((a["id"], d))
@@ -271,8 +278,11 @@ class C20(Prop):
             try:
                 vm = Matrix(svg2.viewbox_transform)
                 obs["vscale"] = max(abs(vm.a) + abs(vm.c), abs(vm.b) + abs(vm.d), 1.0)
+                vi = ~vm
+                obs["vinv"] = [float(vi.a), float(vi.b), float(vi.c), float(vi.d), float(vi.e), float(vi.f)]
             except Exception:
                 obs["vscale"] = 1.0
+                obs["vinv"] = None
             text2 = svg2.string_xml()
             svg3 = SVG.parse(io.StringIO(text2), reify=True, ppi=ppi)
             obs["gen2"] = dg.observe(svg3)
@@ -314,13 +324,13 @@ class C20(Prop):
         fs = []
         src = obs["src"]
         where = []
-        d = shapes_diff(src, obs["gen1"], 2e-6, where, obs.get("vscale", 1.0))
+        d = shapes_diff(src, obs["gen1"], 1e-9, where, obs.get("vscale", 1.0), obs.get("vinv"))
         if d and case.get("zero") and not where:
             where.append(("zero", d))
         if d:
             fs.append(self.classify(Failure(what="parse(write(x)) differs from x: " + d, case=case), case, where))
             return fs
-        d = shapes_diff(obs["gen1"], obs["gen2"], 2e-6, where, obs.get("vscale", 1.0))
+        d = shapes_diff(obs["gen1"], obs["gen2"], 1e-9, where, obs.get("vscale", 1.0), obs.get("vinv"))
         if d:
             fs.append(self.classify(Failure(what="second generation differs from the first: " + d, case=case), case, where))
             return fs
@@ -328,7 +338,7 @@ class C20(Prop):
             fs.append(Failure(what="write_xml / read back raised " + obs["file_exc"], case=case))
         for k in ("file_a.svg", "file_b.svgz"):
             if k in obs:
-                d = shapes_diff(src, obs[k], 2e-6, None, obs.get("vscale", 1.0))
+                d = shapes_diff(src, obs[k], 1e-9, None, obs.get("vscale", 1.0), obs.get("vinv"))
                 if d:
                     fs.append(Failure(what="write_xml(%s) read back differs: %s" % (k[5:], d), case=case))
         return fs
